@@ -258,3 +258,53 @@ class CubeWrite(Contract):
                                                               compare('==', D.shape[0], V.shape[0]), compare('==', D.shape[1], V.shape[1]), compare('==', D.shape[2], V.shape[2]),
                                                               c.forall(list(V.shape), (lambda D, V: lambda m, i, k: D[m, i, k] == V[m, i, k])(D, V), 'cells')]
         return out
+
+
+MONOF = 'sedfitter.convolved_fluxes.convolved_fluxes.MonochromaticFluxes'
+
+
+@contract
+class FromSedCube(Contract):
+    """MonochromaticFluxes.from_sed_cube(cube, k): the slice of the cube at wavelength index k -- flux[m, a] =
+    val[m, a, k], error[m, a] = unc[m, a, k] -- with the cube's model names and apertures and the wavelength
+    cube.wav[k] as central wavelength; the cube is not modified."""
+    name = MONOF + '.from_sed_cube'
+    properties = ('C16', 'C07')
+    variants = ('cube',)
+    modifies = ()
+
+    def setup(self, c, variant):
+        from sedvc.interp import ClassVal
+        cube = make_cube(c, True, True)
+        W = c.A(c.attr(cube, '_wav')).n
+        k = c.int('wavelength_index')
+        c.assume([k >= 0, k < W])
+        return dict(cls=ClassVal(c.interp.repo.find_class(MONOF)), cube=cube, wavelength_index=k)
+
+    def requires(self, c, a):
+        W = c.A(c.attr(a.cube, '_wav')).n
+        return {'index_in_range': band(a.wavelength_index >= 0, a.wavelength_index < W)}
+
+    def result(self, c, a):
+        cube = a.cube
+        M, A, W = c.A(c.attr(cube, '_val')).shape
+        vq = c.attr(cube, '_val')
+        from sedvc.sym import fresh_name
+        tag = fresh_name('mono')
+        return c.obj(MONOF, _model_names=c.attr(cube, '_names'), _apertures=c.attr(cube, '_apertures'),
+                     _wavelength=Quantity(c.real(tag + '_cw'), c.attr(cube, '_wav').unit),
+                     _flux=Quantity(c.fresh_array(tag + '_flux', (M, A)), vq.unit), _error=Quantity(c.fresh_array(tag + '_err', (M, A)), vq.unit))
+
+    def ensures(self, c, a, result, old):
+        cube, k = a.cube, a.wavelength_index
+        vq, uq, wq = c.attr(cube, '_val'), c.attr(cube, '_unc'), c.attr(cube, '_wav')
+        V, E, W = c.A(vq), c.A(uq), c.A(wq)
+        fq, eq, cw = c.attr(result, '_flux'), c.attr(result, '_error'), c.attr(result, '_wavelength')
+        F, G = c.A(fq), c.A(eq)
+        M, A = V.shape[0], V.shape[1]
+        nm, cn = c.A(c.attr(result, '_model_names')), c.A(c.attr(cube, '_names'))
+        return {'slice_of_the_cube': [compare('==', F.shape[0], M), compare('==', F.shape[1], A), compare('==', G.shape[0], M), compare('==', G.shape[1], A),
+                                      c.forall([M, A], lambda m, i: band(F[m, i] * fq.unit.scale == V[m, i, k] * vq.unit.scale, G[m, i] * eq.unit.scale == E[m, i, k] * uq.unit.scale), 'slice')],
+                'central_wavelength_is_that_wavelength': isinstance(cw, Quantity) and compare('==', cw.value * cw.unit.scale, W[k] * wq.unit.scale),
+                'names': [compare('==', nm.n, cn.n), c.forall(cn.n, lambda m: nm[m] == cn[m], 'names')],
+                'apertures': c.attr(result, '_apertures') is c.attr(cube, '_apertures') or (isinstance(c.attr(result, '_apertures'), Quantity) and c.attr(result, '_apertures').value is c.attr(cube, '_apertures').value)}
